@@ -792,6 +792,13 @@ class Interp:
             return base  # typing generics dict[str, Any]
         if isinstance(idx, SymStr):
             idx = idx.text()
+        if isinstance(base, DDict) and base.factory is not None:
+            try:
+                if idx not in base:
+                    f = base.factory
+                    base[idx] = self.call(f, [], {}, node) if not isinstance(f, type) else f()
+            except TypeError:
+                pass
         try:
             return base[idx]
         except KeyError:
@@ -1039,7 +1046,9 @@ class Interp:
         if dotted == "re.Scanner":
             return Sym("re.Scanner", truthy=True)
         if dotted in ("collections.defaultdict",):
-            return {}
+            d = DDict()
+            d.factory = args[0] if args else None
+            return d
         if dotted == "os.path.splitext":
             if isinstance(args[0], str):
                 import os
@@ -1600,6 +1609,12 @@ class Interp:
 
     def s_Nonlocal(self, s, env, m):
         self.unsupported(s, "nonlocal")
+
+
+class DDict(dict):
+    """collections.defaultdict modelled for the evaluator (factory is an abstract callable)."""
+
+    factory = None
 
 
 class OrderedBag:
